@@ -5,6 +5,7 @@ PADDER = {"cls": "torrentfile.recheck.HashChecker.Padder", "fields": {"length": 
 
 def register(reg):
     register_hashchecker(reg)
+    register_hashchecker_next(reg)
     C = reg.contract
 
     # ------------------------------------------------------------------ Padder.__next__  (C04 / C16: absent data = zeros)
@@ -108,3 +109,30 @@ def register_hashchecker(reg):
            "old(self.length) == 0 or old(self.count) * 32 >= len(old(self.pieces))")]}},
       raises_props=["C04"],
       notes="the two variants are the two hasher kinds next_file installs (FileHasher on an existing path, Padder otherwise)")
+
+
+def register_hashchecker_next(reg):
+    C = reg.contract
+    HCX = {"cls": "torrentfile.recheck.HashChecker",
+           "fields": dict(HC_FIELDS, current="any", hasher="any", length="any", count="any", pieces="any", root_hash="any")}
+    C("torrentfile.recheck.HashChecker.next_file",
+      props=["C04", "C05", "C16"],
+      params={"self": HCX},
+      requires=["self.index >= -1", "self.piece_length >= 16384 and is_pow2(self.piece_length)",
+                "implies(is_none(self.current), self.index == -1)",
+                ("env", "fileinfo_wellformed(self.fileinfo, self.index + 1, self.piece_layers, self.piece_length)"),
+                ("env", "path_is_str(self.paths, self.index + 1)")],
+      returns="bool",
+      ensures=[
+          (["C04", "C16"], "moves_to_the_next_listed_file", "self.index == old(self.index) + 1"),
+          (["C04", "C16"], "true_iff_there_is_one",
+           "result == (is_none(old(self.current)) or old(self.index) + 1 < len(self.paths))"),
+          (["C16", "C05"], "takes_length_and_recorded_hashes_of_that_file",
+           "implies(result, self.current == self.paths[self.index] and self.length == self.fileinfo[self.index]['length'] and "
+           "self.count == 0 and self.pieces == (self.piece_layers[self.fileinfo[self.index]['pieces root']] "
+           "if self.length > self.piece_length else self.fileinfo[self.index]['pieces root']))"),
+      ],
+      raises={"IndexError": {"ensures": [("C04", "only_when_called_on_an_empty_path_list", "len(self.paths) == 0")]},
+              "KeyError": {}, "IsADirectoryError": {}},
+      notes="the hasher installed is FileHasher(path) when the path exists and Padder(length) otherwise (exercised natively; "
+            "object construction is not part of this contract)")
